@@ -878,7 +878,8 @@ class LinearOperator(object):
         # Using symeig is preferable here for psd LinearOperators.
         # Will need to overwrite this function for non-psd LinearOperators.
         evals, evecs = self._symeig(eigenvectors=True)
-        signs = torch.sign(evals)
+        # (sign(0) = 0 would delete the singular vectors of zero singular values)
+        signs = torch.where(evals < 0, -torch.ones_like(evals), torch.ones_like(evals))
         U = evecs * signs.unsqueeze(-2)
         S = torch.abs(evals)
         V = evecs
